@@ -272,6 +272,21 @@ func (db *DB) setRemove(batch driver.Batching, addr, rootAddr boson.Address) (gc
 		}
 		return 0, nil
 	}
+	if addr.Equal(rootAddr) {
+		// the file's root chunk is removed, i.e. the file itself goes away:
+		// its whole cache entry goes with it. Chunks it shares with other
+		// files may remain stored, but they no longer belong to this file; a
+		// leftover entry would make a later upload of the same file collectable.
+		err = db.retrievalAccessIndex.DeleteInBatch(batch, rootItem)
+		if err != nil {
+			return 0, err
+		}
+		err = db.gcIndex.DeleteInBatch(batch, gcItem)
+		if err != nil {
+			return 0, err
+		}
+		return -int64(gcItem.GCounter), nil
+	}
 	if gcItem.GCounter > 1 {
 		gcItem.GCounter--
 		err = db.gcIndex.PutInBatch(batch, gcItem)
